@@ -15,6 +15,7 @@ CONSTANT Cfg
 T == <<84>>   U == <<85>>          \* table names "T", "U"
 K == <<75>>   V == <<86>>   W == <<87>>   X == <<88>>
 sa == StrV(<<97>>)  sb == StrV(<<98>>)  sT == StrV(T)  sE == StrV(<<>>)
+se == StrV(<<233>>)                              \* "é": one byte in code page 1252, two in UTF-8
 Long33 == [k \in 1..33 |-> 65 + (k % 26)]     \* an identifier of 33 characters
 
 ColK   == IntCol(K, "i16", FALSE, TRUE)
@@ -81,11 +82,15 @@ Alphabet ==
          \cup {Upd(T, <<<<V, v>>>>, Eq(K, IntV(1))) : v \in {Null, sb}}
          \cup {Upd(T, <<<<K, IntV(2)>>>>, True), Upd(T, <<<<K, IntV(3)>>>>, Eq(K, IntV(1)))}
          \cup {Del(T, Eq(K, IntV(1))), Del(T, True)}
-    [] Cfg = "persist" ->       \* everything the finisher saves, all three closes, reopen and the crash point
-         {Cre(T, TabT), Drp(T), Ins(T, <<<<IntV(1), sa>>>>), Ins(T, <<<<IntV(2), sT>>>>),
-          Upd(T, <<<<V, sb>>>>, Eq(K, IntV(1))), Del(T, Eq(K, IntV(1)))}
+    [] Cfg = "persist" ->       \* what the finisher saves of tables and pool; all three closes, reopen, crash point
+         {Cre(T, TabT), Drp(T), Ins(T, <<<<IntV(1), sa>>>>), Ins(T, <<<<IntV(2), sa>>>>),
+          Upd(T, <<<<V, sT>>>>, Eq(K, IntV(1))), Upd(T, <<<<V, se>>>>, Eq(K, IntV(2))), Del(T, Eq(K, IntV(1)))}
          \cup {E("SetCodepage", [cp |-> 1252])}
-         \cup {E("SetSummary", [field |-> "author", value |-> v]) : v \in {StrV(<<120>>), Absent}}
+         \cup Closes
+    [] Cfg = "persist2" ->      \* summary information, streams and code page against the same closes
+         {Cre(T, TabT), Ins(T, <<<<IntV(1), se>>>>)}
+         \cup {E("SetCodepage", [cp |-> 1252])}
+         \cup {E("SetSummary", [field |-> "author", value |-> v]) : v \in {StrV(<<120, 233>>), Absent}}
          \cup {E("WriteStream", [name |-> <<115>>, data |-> d]) : d \in {"b01", "b0202"}}
          \cup {E("RemoveStream", [name |-> <<115>>])}
          \cup Closes
@@ -129,8 +134,7 @@ Do(e) ==
 
 \* The state Package::create leaves: the catalog describes _Validation, everything flushed.
 Created ==
-  LET ts0 == [t \in {N_Tables, N_Columns, N_Validation} |-> <<>>]
-  IN DoCreate([pool |-> <<>>, ts |-> ts0], N_Validation, ValidationCols, TRUE).ok
+  DoCreate([pool |-> <<>>, ts |-> << >>], N_Validation, ValidationCols, TRUE).ok
 
 MCInit ==
   /\ schemas = [t \in {N_Tables, N_Columns, N_Validation} |->
@@ -139,7 +143,7 @@ MCInit ==
   /\ cp = 65001 /\ summary = InitSummary
   /\ dirty = [fin |-> FALSE, sum |-> FALSE, pool |-> FALSE]
   /\ dpool = [cp |-> 65001, e |-> Created.pool] /\ dsum = summary
-  /\ ustreams = << >> /\ sess = "open" /\ ptype = "Installer"
+  /\ ustreams = << >> /\ sess = "open" /\ ptype = "Installer" /\ ro = FALSE
   /\ hist = [path |-> <<>>, last |-> [op |-> "Create", args |-> [ptype |-> "Installer"], res |-> "Ok"]]
 
 MCNext == \E e \in Alphabet : Do(e)
@@ -162,6 +166,7 @@ DiffJ(a, a1) ==
       streams |-> SetToSeq({[name |-> n, data |-> a1.streams[n]] : n \in DOMAIN a1.streams}),
       tables  |-> SetToSeq({[name |-> t, cols |-> a1.tables[t].cols, rows |-> a1.tables[t].rows] : t \in changed}),
       same    |-> SetToSeq(DOMAIN a1.tables \ changed)]
+Present(ts) == SetToSeq(DOMAIN ts)
 
 NoTables == [tables |-> << >>]
 Emit == PrintT(<<"EDGE", ToJson([path |-> SubSeq(hist'.path, 2, Len(hist'.path)),
@@ -169,5 +174,6 @@ Emit == PrintT(<<"EDGE", ToJson([path |-> SubSeq(hist'.path, 2, Len(hist'.path))
                                  open |-> sess' = "open",
                                  clean |-> ~dirty'.fin,
                                  preclean |-> ~dirty.fin,
+                                 present |-> Present(tstream'),
                                  dst |-> DiffJ(IF sess = "open" THEN AbsS(Cur) ELSE NoTables, AbsS(Nxt))])>>)
 =============================================================================
